@@ -597,6 +597,72 @@ theorem length_path {v : Variant} {ok : Bool} {s t : St} (p : IntPath v ok s t) 
     | reply b => simp only [step] at hs; rw [(replyStep_frame hs).1]
     | _ => simp [Lbl.internal] at hl
 
+/-! ### each call keeps its identity along internal steps -/
+
+def ConsPc.isGet : ConsPc → Bool
+  | .gCall | .gHoldWait | .gPassed | .gHold | .gUnlock _ | .gDone _ => true
+  | _ => false
+
+/-- How one consumer's pc may change along internal steps: a `Ready` call stays as it is or returns
+nil; a `GetX509SVID` call stays a `GetX509SVID` call. -/
+def Evolves (a b : ConsPc) : Prop :=
+  a = b ∨ (a = .yWait ∧ b = .yDone true) ∨ (a.isGet = true ∧ b.isGet = true)
+
+theorem Evolves.refl (a : ConsPc) : Evolves a a := Or.inl rfl
+
+theorem Evolves.trans {a b c : ConsPc} (h1 : Evolves a b) (h2 : Evolves b c) : Evolves a c := by
+  rcases h1 with rfl | ⟨rfl, rfl⟩ | ⟨ha, hb⟩
+  · exact h2
+  · rcases h2 with h | ⟨h, _⟩ | ⟨h, _⟩
+    · subst h; exact Or.inr (Or.inl ⟨rfl, rfl⟩)
+    · cases h
+    · simp [ConsPc.isGet] at h
+  · rcases h2 with rfl | ⟨rfl, _⟩ | ⟨_, hc⟩
+    · exact Or.inr (Or.inr ⟨ha, hb⟩)
+    · simp [ConsPc.isGet] at hb
+    · exact Or.inr (Or.inr ⟨ha, hc⟩)
+
+theorem evolves_step {v : Variant} {ok : Bool} {s t : St} {l : Lbl} (hl : l.internal ok = true)
+    (hs : step v s l = some t) (i : Nat) (a : ConsPc) (ha : s.cons[i]? = some a) :
+    ∃ b, t.cons[i]? = some b ∧ Evolves a b := by
+  cases l with
+  | run => simp only [step] at hs; rw [(runStep_frame hs).1]; exact ⟨a, ha, .refl a⟩
+  | reply b => simp only [step] at hs; rw [(replyStep_frame hs).1]; exact ⟨a, ha, .refl a⟩
+  | cons j =>
+    by_cases hij : j = i
+    · subst hij
+      simp only [step, consStep, ha] at hs
+      have hlt : j < s.cons.length := (List.getElem?_eq_some_iff.mp ha).1
+      have key : ∀ b, Evolves a b → t.cons = s.cons.set j b → ∃ b, t.cons[j]? = some b ∧ Evolves a b :=
+        fun b hb ht => ⟨b, by rw [ht]; simp [hlt], hb⟩
+      cases a <;> simp at hs
+      · obtain ⟨_, rfl⟩ := hs
+        exact key (.yDone true) (Or.inr (Or.inl ⟨rfl, rfl⟩)) rfl
+      · cases v <;> simp at hs <;> obtain ⟨_, rfl⟩ := hs
+        · exact key .gHoldWait (Or.inr (Or.inr ⟨rfl, rfl⟩)) rfl
+        · exact key .gPassed (Or.inr (Or.inr ⟨rfl, rfl⟩)) rfl
+      · obtain ⟨_, rfl⟩ := hs
+        exact key .gHold (Or.inr (Or.inr ⟨rfl, rfl⟩)) rfl
+      · obtain ⟨_, rfl⟩ := hs
+        exact key .gHold (Or.inr (Or.inr ⟨rfl, rfl⟩)) rfl
+      · subst hs
+        exact key (.gUnlock s.svid) (Or.inr (Or.inr ⟨rfl, rfl⟩)) rfl
+      · rename_i r
+        subst hs
+        exact key (.gDone r) (Or.inr (Or.inr ⟨rfl, rfl⟩)) rfl
+    · obtain ⟨pc, b, _, rfl⟩ := consStep_shape hs
+      exact ⟨a, by simp [List.getElem?_set_ne hij, ha], .refl a⟩
+  | _ => simp [Lbl.internal] at hl
+
+theorem evolves_path {v : Variant} {ok : Bool} {s t : St} (p : IntPath v ok s t) (i : Nat) (a : ConsPc)
+    (ha : s.cons[i]? = some a) : ∃ b, t.cons[i]? = some b ∧ Evolves a b := by
+  induction p generalizing a with
+  | refl s => exact ⟨a, ha, .refl a⟩
+  | head l hl hs _ ih =>
+    obtain ⟨b, hb, hab⟩ := evolves_step hl hs i a ha
+    obtain ⟨c, hc, hbc⟩ := ih b hb
+    exact ⟨c, hc, hab.trans hbc⟩
+
 /-! ### what is served is the latest installed fetch -/
 
 /-- `currentSVID` is the newest successful fetch, except while the Run goroutine carries a newer one
